@@ -606,10 +606,19 @@ class RedlineEngine:
 
         # FALLBACK: If Raw View match failed, try matching against Clean View
         use_clean_map = False
-        if start_idx == -1:
+        raw_exact = start_idx != -1 and self.mapper.full_text[start_idx : start_idx + match_len] == edit.target_text
+        if not raw_exact:
             if not self.clean_mapper:
                 self.clean_mapper = DocumentMapper(self.doc, clean_view=True)
 
+            # An exact match in the Clean View beats an approximate match in the Raw View: the approximate stages
+            # may cover a different amount of whitespace around tracked deletions.
+            clean_idx = self.clean_mapper.full_text.find(edit.target_text)
+            if clean_idx != -1:
+                start_idx, match_len = clean_idx, len(edit.target_text)
+                use_clean_map = True
+
+        if start_idx == -1 and self.clean_mapper:
             start_idx, match_len = self.clean_mapper.find_match_index(edit.target_text)
             if start_idx != -1:
                 logger.info("Matched edit against Clean View.")
